@@ -2,9 +2,10 @@ SPECIFICATION Spec
 CONSTANTS
   Rate = 7
   MsPerDay = 5
-  Gaps = {1, 2, 7}
+  NsPerMs = 3
+  Gaps = {1, 2, 4, 7}
   Amts = {1, 3}
-  MaxT = 16
+  MaxT = 20
 INVARIANTS InflationBound NoMintBeforeStart
 PROPERTY SplitExact
 CONSTRAINT Bound
